@@ -77,10 +77,21 @@ def soloPtrBytes : Node :=
     (.basic { typn := "byte", typu := "byte" })]
 theorem original_rejects_ptr_bytes_alone :
     uncompilableOriginal soloPtrBytes = some "ptr-bytes-alone" ∧ uncompilable soloPtrBytes = none := by decide
-theorem ptr_bytes_rule_only (root : Node) (h : uncompilableOriginal root = none) : uncompilable root = none := by
-  unfold uncompilableOriginal uncompilable uncompilableWith at *
-  cases hs : uncompilableShape root with
+theorem ptr_bytes_rule_only (vr : Bool) (root : Node) (h : uncompilableWith true vr root = none) :
+    uncompilableWith false vr root = none := by
+  unfold uncompilableWith at *
+  cases hs : uncompilableShape vr root with
   | none => simp
   | some c => simp [hs] at h
+
+/-- Finding `uncompilable-ptr-scalar-field-in-struct-value` (repaired in /repo as a side effect of `fix: DeepEqual
+tests the nil-ness of pointer-to-scalar fields on the field, not on its parent`): `type In struct { P *int32 };
+type T struct { F In }` — DeepEqual of the pinned commit emitted `lx == nil` on the struct value `F`; the emitter
+as it is names the field. -/
+def valueStructPtrField : Node :=
+  .struct { typn := "T" } [.struct { typn := "In", name := "F" } [.basic { typn := "int32", typu := "int32", name := "P", ptr := true }]]
+theorem original_rejects_value_struct_ptr_field :
+    uncompilableOriginal valueStructPtrField = some "ptr-scalar-field-in-struct-value" ∧
+    uncompilable valueStructPtrField = none := by decide
 
 end Inspector.C14
